@@ -31,7 +31,7 @@
 (***************************************************************************)
 EXTENDS Integers, Sequences, FiniteSets, TLC
 
-CONSTANTS Variant      \* "intended" | controls: "inplace" | "pinned" | "ackearly" | "linked"
+CONSTANTS Variant      \* "intended" | controls: "inplace" | "pinned" | "ackearly" | "linked" | "excltemp"
 
 VARIABLES dir,       \* file record -> inode: the names present in the config directory
           ino,       \* inode -> sequence of chunks [v, k]: what has been written to it (k = "whole" | "part")
@@ -191,7 +191,7 @@ Load(st) ==
 (* the temp file: a fixed name next to the final file opened with O_TRUNC (os.WriteFile(path+".tmp")), or a fresh
    name opened with O_EXCL (os.CreateTemp) - the same protocol, a fresh name can only collide with less *)
 AtomicReplace(f, t, v) ==
-  << Step("open", "trunc", t, t, 0), Step("write", "", t, t, v), Step("close", "", t, t, 0), Step("rename", "", t, f, 0) >>
+  << Step("open", IF Variant = "excltemp" THEN "excl" ELSE "trunc", t, t, 0), Step("write", "", t, t, v), Step("close", "", t, t, 0), Step("rename", "", t, f, 0) >>
 CreateLinked(f, t, v) ==          \* link(2) fails if the name exists and never exposes a partial file
   << Step("open", "trunc", t, t, 0), Step("write", "", t, t, v), Step("close", "", t, t, 0),
      Step("link", "", t, f, 0), Step("unlink", "", t, t, 0) >>
@@ -201,12 +201,14 @@ CreateExcl(f, v) ==
   << Step("open", "excl", f, f, 0), Step("write", "", f, f, v), Step("close", "", f, f, 0) >>
 AckStep == Step("ack", "", F("-", "-"), F("-", "-"), 0)
 
-Replace(f, t, v) == IF Variant \in {"intended", "ackearly", "linked"} THEN AtomicReplace(f, t, v) ELSE InPlace(f, v)
+(* "excltemp" control: the FIXED temp name is created with O_EXCL - a temp file left by a kill makes every later save
+   of that store fail (see Fail) *)
+Replace(f, t, v) == IF Variant \in {"intended", "ackearly", "linked", "excltemp"} THEN AtomicReplace(f, t, v) ELSE InPlace(f, v)
 (* Creation: the account manager's mutex makes "check that the login is free, then temp + rename" exclusive, and no
    hard link ever exists.  The "linked" control (temp + link(2) + unlink temp) is NOT crash-safe together with
    AtomicReplace: a crash between link and unlink leaves the temp name hard-linked to the account file, and the next
    update of that login truncates the account file through its O_TRUNC open of the temp name. *)
-Create(f, t, v)  == CASE Variant \in {"intended", "ackearly"} -> AtomicReplace(f, t, v)
+Create(f, t, v)  == CASE Variant \in {"intended", "ackearly", "excltemp"} -> AtomicReplace(f, t, v)
                       [] Variant = "linked" -> CreateLinked(f, t, v)
                       [] OTHER -> CreateExcl(f, v)
 
@@ -263,6 +265,24 @@ Finish ==
   /\ val' = [val EXCEPT ![inflight.st] = inflight.new]
   /\ inflight' = None
   /\ UNCHANGED <<dir, ino, fds, acked, phase, loaded>>
+
+(* The next call of the protocol cannot succeed in the current directory (e.g. O_EXCL on a name a dead process left
+   behind): the store's method returns an error and the update is over.  Several request handlers only LOG that error
+   and acknowledge the request all the same (HandleDisconnectUser for a ban, HandleSetUser, HandleNewNewsCat /
+   HandleNewNewsFldr, HandlePostNewsArt, HandleDelNewsArt); the store has then already changed its in-memory value. *)
+AcksOnError(kind) == kind \in {"ban_add", "acct_update", "news_cat", "news_post", "news_delart"}
+Fail ==
+  /\ phase = "run" /\ inflight.kind = "upd" /\ inflight.pc <= Len(inflight.proto)
+  /\ inflight.proto[inflight.pc].call # "ack"
+  /\ ~SysGuard(inflight.proto[inflight.pc])
+  /\ IF AcksOnError(inflight.u.kind)
+       THEN /\ acked' = [acked EXCEPT ![inflight.st] = inflight.new]
+            /\ val' = [val EXCEPT ![inflight.st] = inflight.new]
+       ELSE UNCHANGED <<acked, val>>
+  /\ inflight' = None
+  /\ fds' = << >>
+  /\ ino' = Gc(dir, << >>, ino)
+  /\ UNCHANGED <<dir, phase, loaded>>
 
 Crash ==
   /\ phase \in {"run", "cut"}
